@@ -342,5 +342,79 @@ pub mod ds {
     {
         if rec_len(s) > 0 { lemma_valid_len_bound(s.subrange(rec_len(s), s.len() as int)); }
     }
+
+    /// the first record of s is still the first record of any prefix of s that contains it
+    pub proof fn lemma_prefix_rec(s: Seq<u8>, t: Seq<u8>, n: int)
+        requires rec_len(s) > 0, rec_len(s) <= t.len() <= s.len(), t == s.take(t.len() as int)
+        ensures rec_len(t) == rec_len(s), is_path_rec(t) == is_path_rec(s), rec_ids_ok(s, n) ==> rec_ids_ok(t, n),
+            t.subrange(rec_len(s), t.len() as int) == s.subrange(rec_len(s), s.len() as int).take(t.len() - rec_len(s)),
+    {
+        let r = rec_len(s);
+        assert(t.subrange(0, 2) =~= s.subrange(0, 2));
+        let l = dec_u16(s.subrange(0, 2));
+        if l & 0x8000 != 0 {
+            let no = (l & 0x7fff) as int;
+            assert(t.subrange(2 + 3 * no, 2 + 3 * no + 2) =~= s.subrange(2 + 3 * no, 2 + 3 * no + 2));
+            if rec_ids_ok(s, n) {
+                let bs = s.subrange(2, s.len() as int);
+                let bt = t.subrange(2, t.len() as int);
+                assert forall|j: int| 0 <= j < no && 3 * j + 3 <= bt.len() implies (#[trigger] id_at(bt, j)) < n by {
+                    assert(bt.subrange(3 * j, 3 * j + 3) =~= bs.subrange(3 * j, 3 * j + 3));
+                    assert(id_at(bs, j) < n);
+                }
+                let nd = dec_u16(s.subrange(2 + 3 * no, 2 + 3 * no + 2)) as int;
+                let ds_ = s.subrange(2 + 3 * no + 2, s.len() as int);
+                let dt = t.subrange(2 + 3 * no + 2, t.len() as int);
+                assert forall|j: int| 0 <= j < nd && 3 * j + 3 <= dt.len() implies (#[trigger] id_at(dt, j)) < n by {
+                    assert(dt.subrange(3 * j, 3 * j + 3) =~= ds_.subrange(3 * j, 3 * j + 3));
+                    assert(id_at(ds_, j) < n);
+                }
+            }
+        }
+        assert(t.subrange(r, t.len() as int) =~= s.subrange(r, s.len() as int).take(t.len() - r));
+    }
+    /// cutting a (possibly torn) stream at its valid length leaves a stream of complete records only
+    pub proof fn lemma_take_valid(s: Seq<u8>, n: int)
+        requires wf_stream(s, n)
+        ensures 0 <= valid_len(s) <= s.len(), wf_stream(s.take(valid_len(s)), n), valid_len(s.take(valid_len(s))) == valid_len(s)
+        decreases s.len()
+    {
+        lemma_valid_len_bound(s);
+        let v = valid_len(s);
+        let t = s.take(v);
+        if rec_len(s) > 0 {
+            let r = rec_len(s);
+            let rest = s.subrange(r, s.len() as int);
+            let n2 = if is_path_rec(s) { n + 1 } else { n };
+            lemma_take_valid(rest, n2);
+            lemma_valid_len_bound(rest);
+            let v2 = valid_len(rest);
+            lemma_prefix_rec(s, t, n);
+            assert(t.subrange(r, t.len() as int) =~= rest.take(v2));
+            assert(wf_stream(t, n));
+            assert(valid_len(t) == r + valid_len(t.subrange(r, t.len() as int)));
+        } else {
+            assert(t.len() == 0);
+        }
+    }
+    /// C07: what db::open leaves on disk is a log that ends at a record boundary and that every later load accepts
+    pub proof fn lemma_kept_complete(c: Seq<u8>)
+        requires log_prefix(c)
+        ensures log_complete(kept(c))
+    {
+        broadcast use crate::ax_sig_len;
+        if c.len() < 8 {
+            let k = signature();
+            assert(k.len() == 8);
+            assert(k.subrange(0, 8) =~= k);
+            assert(skip(k, 8).len() == 0);
+        } else {
+            lemma_take_valid(skip(c, 8), 0);
+            let v = valid_len(skip(c, 8));
+            let k = c.take(8 + v);
+            assert(k.subrange(0, 8) =~= c.subrange(0, 8));
+            assert(skip(k, 8) =~= skip(c, 8).take(v));
+        }
+    }
     }
 }
